@@ -34,8 +34,8 @@ CONSTS = {
     # exhaustive run; thinned run = a seed-chosen random subtree of longer programs over four symbols;
     # chain run = exhaustive def-use chain family (one atom per right hand side, only defined symbols are read)
     "quick": (
-        dict(NSyms=3, MaxLen=3, MaxUses=2, MaxGuards=1, WithODE="TRUE", MaxFeat=3, MaxAdm=5, MinEmit=1, MinCands=0, MaxRmSet=1, SampleMod=64, Thin=1, FullDepth=0, ChainMode="FALSE"),
-        dict(NSyms=4, MaxLen=6, MaxUses=2, MaxGuards=2, WithODE="TRUE", MaxFeat=9, MaxAdm=4, MinEmit=5, MinCands=0, MaxRmSet=2, SampleMod=2, Thin=160, FullDepth=1, ChainMode="FALSE"),
+        dict(NSyms=3, MaxLen=3, MaxUses=2, MaxGuards=1, WithODE="TRUE", MaxFeat=3, MaxAdm=5, MinEmit=1, MinCands=0, MaxRmSet=1, SampleMod=96, Thin=1, FullDepth=0, ChainMode="FALSE"),
+        dict(NSyms=4, MaxLen=6, MaxUses=2, MaxGuards=2, WithODE="TRUE", MaxFeat=9, MaxAdm=4, MinEmit=5, MinCands=0, MaxRmSet=2, SampleMod=3, Thin=160, FullDepth=1, ChainMode="FALSE"),
         dict(NSyms=4, MaxLen=5, MaxUses=1, MaxGuards=0, WithODE="FALSE", MaxFeat=9, MaxAdm=5, MinEmit=4, MinCands=3, MaxRmSet=1, SampleMod=1, Thin=1, FullDepth=0, ChainMode="TRUE"),
     ),
     "thorough": (
@@ -139,11 +139,17 @@ class _Env:
         self.amount = sympy.Function("A_CENTRAL")(self.t)
         self.cache: dict = {}
 
-        def mk_ode(rate):
+        def mk_ode(rate, inp):
+            """CENTRAL (bolus amt, elimination `rate`); when `inp` is not 0 a second compartment EFFECT WITHOUT a dose,
+            with zero-order input `inp`, flowing into CENTRAL with the rate constant ke0"""
             cb = CompartmentalSystemBuilder()
             c = Compartment.create("CENTRAL", doses=(Bolus.create("amt"),))
             cb.add_compartment(c)
             cb.add_flow(c, output, Expr(rate))
+            if inp != 0:
+                e = Compartment.create("EFFECT", input=Expr(inp))
+                cb.add_compartment(e)
+                cb.add_flow(e, c, Expr.symbol("ke0"))
             return CompartmentalSystem(cb)
 
         self.mk_ode = mk_ode
@@ -163,7 +169,7 @@ class _Env:
         if key in self.cache:
             return self.cache[key]
         if st["k"] == "ode":
-            s = self.mk_ode(self.form(st["t"]))
+            s = self.mk_ode(self.form(st["t"]), self.form(st["f"]))
         else:
             e = self.form(st["t"])
             if st["g"]:
@@ -201,7 +207,11 @@ class _Env:
             central = s.find_compartment("CENTRAL")
             r = self.lin(self.sympy.sympify(s.get_flow(central, self.output)))
             doses = [str(d.amount) for d in central.doses]
-            return {"k": "ode", "lhs": "a1", "g": False, "t": r, "f": r, "dose": doses}
+            eff = s.find_compartment("EFFECT")
+            inp = [] if eff is None else self.lin(self.sympy.sympify(eff.input))
+            if eff is not None and (eff.doses or str(s.get_flow(eff, central)) != "ke0"):
+                raise ValueError("EFFECT compartment changed")
+            return {"k": "ode", "lhs": "a1", "g": False, "t": r, "f": inp, "dose": doses}
         e = self.sympy.sympify(s.expression)
         v = self.value(e)
         return {"k": "asg", "lhs": str(s.symbol), "g": bool(e.has(self.sympy.Piecewise)), "t": v["t"], "f": v["f"]}
@@ -231,7 +241,7 @@ def _text(prog):
     out = []
     for st in prog:
         if st["k"] == "ode":
-            out.append(f"ODE(rate={f(st['t'])}, dose=amt) -> a1")
+            out.append(f"ODE(rate={f(st['t'])}, dose=amt" + (f", dose-less EFFECT with input {f(st['f'])}" if st["f"] else "") + ") -> a1")
         elif st["g"]:
             out.append(f"{st['lhs']} = ({f(st['t'])} if x1>0 else {f(st['f'])})")
         else:
@@ -253,7 +263,7 @@ def _depnames(E, symbs):
     out = set()
     for x in symbs:
         s = str(x)
-        if s == "t":
+        if s in ("t", "ke0"):
             continue
         out.add("a1" if s.startswith("A_CENTRAL") else s)
     return out
@@ -463,7 +473,7 @@ def _model_parts(E, joint):
         else:
             rvs = RandomVariables.create([NormalDistribution.create("e1", "iiv", 0, "om_e1"), NormalDistribution.create("e2", "iiv", 0, "om_e2")])
         # symbols that are read before they are assigned, the guard leaf and the dose are data columns
-        di = DataInfo.create(["x1", "amt", "q1", "t", "A", "B", "C", "D"])
+        di = DataInfo.create(["x1", "amt", "q1", "t", "ke0", "A", "B", "C", "D"])
         E.cache[key] = (ps, rvs, di)
     return E.cache[key]
 
